@@ -2,6 +2,10 @@
      pgpy/packet/fields.py  PrivKey.decrypt_keyblob (whole body: session key, CFB call, the usage-254 SHA-1 gate and the
                             usage-255 16-bit-sum gate, the value returned), PrivKey.encrypt_keyblob (whole body: the S2K
                             fields written, the loop over __privfields__, the SHA-1 trailer, the CFB call)      -> Gen/Gen_fields.v
+                            (since repair a3ce830 the S2K fields are those of a local String2Key object; the statements
+                            `s2k = String2Key()` and `self.s2k = s2k` -- built on the side, installed after _encrypt together
+                            with self.encbytes -- are pinned text of the translator; that nothing is installed when _encrypt
+                            refuses is the [can_encrypt] branch of Model/KeyProtect.v step, tied by the harness histories)
      pgpy/constants.py      enum member lists, SymmetricKeyAlgorithm.cipher(.block_size) table                   -> Gen/Gen_tables.v *)
 From Coq Require Import String ZArith List Bool Lia ZifyBool.
 Import ListNotations.
